@@ -688,6 +688,10 @@ fn flatten_module<'a>(
         namespace.pop();
     }
     for (name, submod) in module.submodules.iter() {
+        // module names become components of dotted paths, the same rules apply as for functions
+        if !is_name_valid(name.as_ref()) {
+            return Err(CompilationErrorPayload::BadModuleName(name.to_string()));
+        }
         namespace.push(name.as_ref());
         flatten_module(submod, recursion_limit, namespace, out)?;
         namespace.pop();
